@@ -365,6 +365,9 @@ class ExprMixin:
             it = self.eval(gen.iter, st)
             if isinstance(it, Const) and isinstance(it.value, str) and len(it.value) <= 8:
                 it = Tup([Const(ch) for ch in it.value])
+            ita = it.single_atom() if isinstance(it, Poly) else None
+            if ita is not None and ita[0] == 'idx' and ita[2] == NONE:
+                it = Tup([Poly.atom(ita[1])])          # x[np.newaxis]: a sequence whose only item is x
             if isinstance(it, Tup) and len(it) <= 8:
                 out = []
                 saved = dict(st.env)
